@@ -997,9 +997,17 @@ def sabotage(rng: random.Random, data: bytes, marks: typing.List[dict]):
 def gen_xrev_case(rng: random.Random) -> dict:
     nf = rng.randint(0, 4)
     ng = rng.randint(1, 3)
-    fs = [gen_type(rng, rng.choice([0, 0, 1, 2]), 200) if rng.random() > 0.1 else ["void", rng.choice([1, 3, 8])] for _ in range(nf + ng)]
-    long_ = ["struct", fs, None]
-    short = ["struct", fs[:nf], None]
+    if rng.random() < 0.12:
+        # a delimited UNION gaining / losing trailing variants: common variants must read alike, a variant the
+        # reader does not know must never be decoded as something else
+        nf = rng.randint(2, 4)
+        fs = [gen_type(rng, rng.choice([0, 0, 1, 2]), 200) for _ in range(nf + ng)]
+        long_ = ["union", fs, None]
+        short = ["union", fs[:nf], None]
+    else:
+        fs = [gen_type(rng, rng.choice([0, 0, 1, 2]), 200) if rng.random() > 0.1 else ["void", rng.choice([1, 3, 8])] for _ in range(nf + ng)]
+        long_ = ["struct", fs, None]
+        short = ["struct", fs[:nf], None]
     extent = max(inner_max(long_), inner_max(short)) + 8 * rng.choice([0, 0, 1, 5, 40])
     long_[2] = extent
     short[2] = extent
@@ -1042,6 +1050,10 @@ def wrap_container(rng: random.Random, a, b):
     return ta, tb
 
 
+class ExpectReject(Exception):
+    pass
+
+
 def adapt(tw, tr, c):
     """What a reader with type tr must see when the writer had canonical value c of type tw (raw float bits)."""
     if tw == tr:
@@ -1053,6 +1065,8 @@ def adapt(tw, tr, c):
         return [adapt(tw[1], tr[1], x) for x in c]
     if k == "union":
         tag, x = c["u"]
+        if tag >= len(tr[1]):
+            raise ExpectReject()
         return {"u": [tag, adapt(tw[1][tag], tr[1][tag], x)]}
     if k == "struct":
         fw, fr = tw[1], tr[1]
@@ -1102,10 +1116,10 @@ class WireSuite(common.Suite):
             nested = ["struct", [["uint", 3, "trunc"], ["struct", [["sint", 5, "sat"], ["union", [["bool"], ["float", 16, "sat"]], None]], 64], ["farr", ["struct", [["uint", 1, "sat"]], None], 3]], None]
             nv = {"d": [[0, 13], [1, {"d": [[0, -17], [1, {"d": [[1, {"bits": 0x7BFF, "src": ["f", 0x40EFFFFFFFFFFFFF]}]]}]]}], [2, [{"d": [[0, 1]]}, {"d": []}, {"d": [[0, 7]]}]]]}
             return [
-                {"op": "enc", "ty": big, "val": v, "explicit": v, "relaxed": False, "hdr": False, "valid": True},
                 {"op": "enc", "ty": nested, "val": nv, "explicit": nv, "relaxed": False, "hdr": False, "valid": True},
                 {"op": "enc", "ty": nested, "val": [13, [-17, {"d": [[1, {"bits": 0x7BFF, "src": ["f", 0x40EFFFFFFFFFFFFF]}]]}], [1, {"d": []}, 7]],
                  "explicit": nv, "relaxed": True, "hdr": False, "valid": True},
+                {"op": "enc", "ty": big, "val": v, "explicit": v, "relaxed": False, "hdr": False, "valid": True},
             ]
         if prop == "C07":
             d = ["struct", [u8, ["struct", [["uint", 16, "sat"], ["varr", ["utf8"], 10]], 256], ["uint", 5, "sat"]], None]
@@ -1263,7 +1277,14 @@ class WireSuite(common.Suite):
             c = expect(tw, case["val"])
         except Reject:
             return None
-        want = nan_norm(tr, adapt(tw, tr, c))
+        try:
+            want = nan_norm(tr, adapt(tw, tr, c))
+        except ExpectReject:
+            if impl.get("res") == "ok":
+                return "a union variant unknown to the reader was decoded as %s" % _short(impl["val"])
+            if impl.get("res") != "rejected":
+                return "reading an unknown union variant raised %s" % impl.get("res")
+            return None
         if impl.get("res") != "ok":
             return "data written with one revision was rejected by the other: %s" % (impl.get("soft_cls") or impl.get("res"))
         if impl["val"] != want:
@@ -1357,6 +1378,7 @@ class WireSuite(common.Suite):
             yield "dec-result:" + (impl.get("soft_cls") or impl.get("res", "?"))
         else:
             yield "xrev:" + ("appended" if t_max_fields(case["tyW"]) < t_max_fields(case["tyR"]) else "removed")
+            yield "xrev-result:" + impl.get("res", "?")
 
     def nontrivial(self, case, impl):
         if case["op"] == "dec":
